@@ -42,6 +42,7 @@ fn one_shot_perf(p: &Prepared, i: usize, st: &ScoreState) -> Result<PerformanceA
     })
 }
 
+#[allow(dead_code)]
 fn only_mania_combo_differs(a: &PerformanceAttributes, b: &PerformanceAttributes) -> bool {
     if let (PerformanceAttributes::Mania(x), PerformanceAttributes::Mania(y)) = (a, b) {
         let mut y2 = y.clone();
@@ -107,8 +108,6 @@ fn check_history(run: &mut Run, id: &str, p: &Prepared, ops: &[(POp, ScoreState)
                         if format!("{got:?}") != format!("{exp:?}") {
                             let cls = if !tclass.is_empty() {
                                 tclass
-                            } else if p.mode == 3 && p.mania_inc_mismatch && only_mania_combo_differs(&got, &exp) {
-                                "mania-gradual-combo-roundtrip"
                             } else {
                                 ""
                             };
